@@ -18,7 +18,7 @@
    (2) [c17_thread_protocol]: for every thread, between invocation and return of each of its
        calls (in program order) there is exactly one effect event, carrying the arguments of
        that call; no event of a thread that is not inside a call changes the word. *)
-From Got Require Import Base Atomics AtomicsProofs MutexWord MutexWordProofs MutexExclProofs MutexAcctProofs.
+From Got Require Import Base Atomics AtomicsProofs MutexWord MutexWordProofs MutexExclProofs MutexAcctProofs MutexObs MutexObsProofs.
 Local Open Scope Z_scope.
 
 (* ---------------------------------------------------------------- Flag / AddIf64 *)
@@ -410,3 +410,35 @@ Proof.
   split; [vm_compute; reflexivity|].
   split; vm_compute; reflexivity.
 Qed.
+
+(* ---------------------------------------------------------------- Count / IsLocked / IsWoken / IsStarving as stepped calls *)
+
+(* The state-word observers perform exactly ONE load of the state word (yield sites 23 / 24) and return the
+   promised function of the word at that load, whatever the environment does to the word during the call
+   ([ws] = the words at the successive loads): "Count reports holder plus waiters" of a state the mutex
+   really had.  The code is stepped against this on every run (case tag c17k: the harness rewrites the word
+   before each load and counts the loads). *)
+Theorem c17_observers_single_snapshot :
+  forall o ws, mx_valid_word (mx_nth_word ws 0) ->
+    mx_obs_run MxoOneLoad o ws = (1%nat, [mx_obs_site o], mx_obs_spec o (mx_nth_word ws 0)).
+Proof. exact mx_obs_single_snapshot. Qed.
+Print Assumptions c17_observers_single_snapshot.
+
+Theorem c17_observers_report_a_real_state :
+  forall o ws, ws <> [] -> Forall mx_valid_word ws ->
+    exists w, In w ws /\ snd (mx_obs_run MxoOneLoad o ws) = mx_obs_spec o w.
+Proof. exact mx_obs_result_is_some_word. Qed.
+Print Assumptions c17_observers_report_a_real_state.
+
+(* a Count assembled from two loads (waiters from the first, the locked bit from a second one, as when
+   Count re-uses IsLocked) agrees with Count on every quiescent word, but across a hand-over (word 10 =
+   one woken waiter, then word 1 = locked) it reports 2 although exactly one participant existed at
+   every instant, and 0 in the other order *)
+Theorem c17_count_two_loads_refuted :
+  mx_valid_word 10 /\ mx_valid_word 1 /\
+  mx_obs_spec MxoCount 10 = 1 /\ mx_obs_spec MxoCount 1 = 1 /\
+  snd (mx_obs_run MxoTwoLoads MxoCount [10; 1]) = 2 /\
+  snd (mx_obs_run MxoTwoLoads MxoCount [1; 10]) = 0 /\
+  (forall w, snd (mx_obs_run MxoTwoLoads MxoCount [w]) = snd (mx_obs_run MxoOneLoad MxoCount [w])).
+Proof. exact mx_obs_two_loads_refuted. Qed.
+Print Assumptions c17_count_two_loads_refuted.
